@@ -1984,6 +1984,14 @@ func (db *DB) newSyncExecutor(ctx context.Context) (*syncExecutor, error) {
 	db.mu.Lock()
 	defer db.mu.Unlock()
 
+	// A sync or checkpoint that was queued on the executor behind Close (or
+	// issued after it) must not initialize the database again: that would
+	// reopen the handles and re-take the read lock on a closed DB, and
+	// nothing would ever release them.
+	if !db.opened && db.db == nil {
+		return nil, ErrDatabaseNotOpen
+	}
+
 	if err := db.init(ctx); err != nil {
 		return nil, err
 	} else if db.db == nil {
